@@ -188,6 +188,8 @@ class CEval(object):
     def unify(self, a, b):
         if a.pt == b.pt:
             return a, b
+        if a.pt.kind == 'mtag' or b.pt.kind == 'mtag':
+            return self.ex.coerce(a, PT('mtag')), self.ex.coerce(b, PT('mtag'))
         if a.pt.kind in ('list', 'pytuple', 'emptylist') or b.pt.kind in ('list', 'pytuple', 'emptylist'):
             if a.pt.kind == 'emptylist' and b.pt.kind in ('seq',):
                 return SV(b.pt, Empty(sort_of(b.pt))), b
